@@ -17,7 +17,7 @@ x Origin in {each configured origin, proper prefixes and suffixes, substrings, c
 through three routes: Cors::get_headers / Header::get_header_list with the RWS_CONFIG_CORS_* environment, the struct-based Cors::_process, and a full Server::process round trip. \
 Oracle M-CORS: no Origin => no Access-Control-* header; switch on => Allow-Origin echoes Origin and Allow-Credentials is true; switch off => grants iff Origin equals one configured origin (list split on ','), \
 then Allow-Origin = Origin, credentials header iff configured true, and on OPTIONS methods / headers / expose / max-age equal the configured values (header lists compared case-insensitively). \
-The full-server route requests one of twelve targets (root, static file, directory index, .html fallback, 70 KB file, missing path, built-in asset, form endpoint, nested files): the grants must be the same on every route that answers. Origins include look-alikes (blank-padded, trailing slash / dot / port, other scheme, userinfo and path tricks, doubled, NUL, 'null'). Non-trivial = switch off and Origin is a near miss of a configured origin; distinct by (config, origin, method).",
+The full-server route requests one of twelve targets (root, static file, directory index, .html fallback, 70 KB file, missing path, built-in asset, form endpoint, nested files): the grants must be the same on every route that answers. Origins include look-alikes (blank-padded, trailing slash / dot / port, other scheme, userinfo and path tricks, doubled, NUL, 'null'). A third of the cases hand the configuration to the server as an rws.config.toml text through the library's own reader instead of environment variables; an unconfigured credentials flag is an absent variable in two thirds of its cases (the start-up defaults then apply). Non-trivial = switch off and Origin is a near miss of a configured origin; distinct by (config, origin, method).",
         &["configured lists contain no blanks (the documented spelling)", "an unset switch means the default (on)"],
         if tier == Tier::Quick { 600 } else { 7200 },
     )
@@ -37,9 +37,11 @@ pub struct Case {
     #[serde(default)] pub target: u8,
     pub method: String,
     pub preflight: bool,
+    /// the configuration reaches the server through an rws.config.toml text (read by the library's own reader) instead of environment variables
+    #[serde(default)] pub via_file: bool,
 }
 
-pub const POOL: [&str; 10] = ["https://a.example", "https://a.example.evil", "a.example", "https://a", "http://a.example", "https://b.example:8443", "https://foo.example", "https://bar.example", "null", "https://a.example:443"];
+pub const POOL: [&str; 13] = ["https://my_app.example", "https://my-app.example", "https://x_1.example:8443", "https://a.example", "https://a.example.evil", "a.example", "https://a", "http://a.example", "https://b.example:8443", "https://foo.example", "https://bar.example", "null", "https://a.example:443"];
 
 fn origin_strategy(origins: Vec<String>) -> impl Strategy<Value = Option<String>> {
     let o = if origins.is_empty() { vec!["https://a.example".to_string()] } else { origins.clone() };
@@ -68,17 +70,30 @@ fn origin_strategy(origins: Vec<String>) -> impl Strategy<Value = Option<String>
 
 fn case_strategy() -> impl Strategy<Value = Case> {
     let list = |pool: Vec<&'static str>| proptest::collection::vec(prop::sample::select(pool), 0..4).prop_map(|v| { let mut out: Vec<String> = vec![]; for s in v { if !out.contains(&s.to_string()) { out.push(s.to_string()); } } out });
-    (proptest::option::weighted(0.85, proptest::bool::weighted(0.25)), list(POOL.to_vec()), list(vec!["GET", "POST", "PUT", "DELETE", "PATCH"]), list(vec!["content-type", "x-custom-header", "Authorization", "X-Mixed-Case"]),
-     list(vec!["content-type", "x-expose", "ETag"]), proptest::option::weighted(0.8, any::<bool>()), prop::sample::select(vec!["86400", "0", "5", "600", "-1", "0600", "31536000", "7200.5", "1e3", "abc", ""]))
+    (proptest::option::weighted(0.85, proptest::bool::weighted(0.25)), list(POOL.to_vec()), list(vec!["GET", "POST", "PUT", "DELETE", "PATCH"]), list(vec!["content-type", "x-custom-header", "Authorization", "X-Mixed-Case", "x_api_key", "x-b3-traceid"]),
+     list(vec!["content-type", "x-expose", "ETag", "x_request_id"]), proptest::option::weighted(0.8, any::<bool>()), prop::sample::select(vec!["86400", "0", "5", "600", "-1", "0600", "31536000", "7200.5", "1e3", "abc", ""]))
         .prop_flat_map(|(allow_all, origins, methods, headers, expose, credentials, max_age)| {
             (origin_strategy(origins.clone()), prop::sample::select(vec!["GET", "GET", "OPTIONS", "OPTIONS", "POST", "HEAD", "PUT"]), any::<bool>(), 0u8..12)
-                .prop_map(move |(origin, method, preflight, target)| Case { allow_all, origins: origins.clone(), methods: methods.clone(), headers: headers.clone(), expose: expose.clone(), credentials, max_age: max_age.to_string(), origin, method: method.to_string(), preflight, target })
+                .prop_map(move |(origin, method, preflight, target)| Case { allow_all, origins: origins.clone(), methods: methods.clone(), headers: headers.clone(), expose: expose.clone(), credentials, max_age: max_age.to_string(), origin, method: method.to_string(), preflight, target, via_file: target % 3 == 1 })
         })
 }
 
 pub const TARGETS: [&str; 12] = ["/", "/", "/", "/a.txt", "/sub/", "/page", "/big.bin", "/missing", "/style.css", "/form-get-method?a=b", "/noindex/z.css", "/sub/deep/y.png"];
 
 fn set_env(c: &Case) {
+    if c.via_file {
+        // the same configuration as a config file: every value a client-visible grant is made of passes through the file reader
+        for (k, _) in std::env::vars() { if k.starts_with("RWS_CONFIG_") { std::env::remove_var(k); } }
+        let list = |v: &Vec<String>| format!("[{}]", v.iter().map(|x| format!("'{}'", x)).collect::<Vec<_>>().join(","));
+        let mut text = String::from("ip = '127.0.0.1'\n\n[cors]\n");
+        if let Some(b) = c.allow_all { text.push_str(&format!("allow_all = {}\n", b)); }
+        text.push_str(&format!("allow_origins = {}\nallow_methods = {}\nallow_headers = {}\nexpose_headers = {}\n", list(&c.origins), list(&c.methods), list(&c.headers), list(&c.expose)));
+        if let Some(b) = c.credentials { text.push_str(&format!("allow_credentials = {}\n", b)); }
+        text.push_str(&format!("max_age = '{}'\n", c.max_age));
+        let _ = crate::entry_point::config_file::read_config_file(std::io::Cursor::new(text.as_bytes()), String::new());
+        crate::entry_point::set_default_values();
+        return;
+    }
     let set = |k: &str, v: Option<String>| match v { Some(v) => std::env::set_var(k, v), None => std::env::remove_var(k) };
     set("RWS_CONFIG_CORS_ALLOW_ALL", c.allow_all.map(|b| b.to_string()));
     set("RWS_CONFIG_CORS_ALLOW_ORIGINS", Some(c.origins.join(",")));
@@ -186,6 +201,7 @@ pub fn eval(ctx: &Ctx, c: &Case) -> Verdict {
     if near_miss { classes.push("near-miss-origin"); }
     if !switch_on && c.origin.as_ref().map(|o| c.origins.contains(o)).unwrap_or(false) { classes.push("listed-origin"); }
     if c.method == "OPTIONS" { classes.push("options"); }
+    if c.via_file { classes.push("configuration-read-from-a-config-file-text"); }
     if TARGETS[c.target as usize % TARGETS.len()] != "/" { classes.push("target-other-than-root"); }
     ctx.judge(problems, near_miss, classes)
 }
